@@ -8,8 +8,11 @@ import (
 	"fmt"
 	"os"
 	"strings"
+	"sync"
 	"syscall"
+	"time"
 
+	"github.com/mimecast/dtail/internal/clients"
 	"github.com/mimecast/dtail/internal/mapr"
 	"github.com/mimecast/dtail/internal/source"
 	"github.com/mimecast/dtail/internal/verifhook"
@@ -24,8 +27,13 @@ func init() {
 		rowsJSON := fs.String("rows", "[]", "JSON: list of [group, value] rows (count(x) per group g)")
 		final := fs.Bool("final", true, "final result")
 		kill := fs.Int("kill", 0, "kill before the k-th step (1-based)")
+		concurrent := fs.Int("concurrent", 0, "hold the final write of a mapreduce client before its k-th step and fire an interim report meanwhile")
 		fs.Parse(argv)
 		setup(source.Client)
+		if *concurrent > 0 {
+			outfileConcurrent(*query, *rowsJSON, *concurrent)
+			return
+		}
 		q, err := mapr.NewQuery(*query)
 		if err != nil || q == nil {
 			fmt.Println("BADQUERY", err)
@@ -66,3 +74,58 @@ func init() {
 	}
 }
 
+
+// The cumulative mapreduce client at the end of its run: reportResults(true) writes the final result
+// while the periodic reporter may fire once more.  The final writer is held before its k-th
+// outfile.step; an interim report is started meanwhile; then the writer is released.
+func outfileConcurrent(query, rowsJSON string, k int) {
+	mc, err := clients.VerifNewMaprClient(query, true)
+	if err != nil {
+		fmt.Println("BADQUERY", err)
+		os.Exit(3)
+	}
+	var rows [][]string
+	json.Unmarshal([]byte(rowsJSON), &rows)
+	h := mc.VerifHandler("s0")
+	for _, r := range rows {
+		h.Write(append([]byte("AGGREGATE|s0|"+r[0]+"\u2225"+"1"+"\u2225"+"count(x)\u2254"+r[1]+"\u2225"+"g\u2254"+r[0]+"\u2225"), 0xac))
+	}
+	var mu sync.Mutex
+	steps, held := 0, false
+	reached := make(chan struct{})
+	release := make(chan struct{})
+	verifhook.Register(func(name string, args ...interface{}) {
+		if name != "outfile.step" {
+			return
+		}
+		mu.Lock()
+		steps++
+		hold := !held && steps == k
+		if hold {
+			held = true
+		}
+		mu.Unlock()
+		if hold {
+			close(reached)
+			<-release
+		}
+	})
+	finalDone := make(chan struct{})
+	go func() { mc.VerifReport(true); close(finalDone) }()
+	interimDone := make(chan struct{})
+	select {
+	case <-reached:
+		go func() { mc.VerifReport(false); close(interimDone) }()
+		time.Sleep(300 * time.Millisecond)
+		close(release)
+	case <-finalDone: // fewer than k steps
+		close(interimDone)
+	}
+	<-finalDone
+	select {
+	case <-interimDone:
+	case <-time.After(5 * time.Second):
+		fmt.Println("INTERIM-STUCK")
+	}
+	fmt.Println("CONCURRENT-DONE", steps)
+}
